@@ -10,7 +10,7 @@ from ..source import norm_text
 from .C08 import linear
 from .common import def_map, expand
 from .formula import check_degree
-from .geo import all_geos, geo_text, kind_errors, uniq_events
+from .geo import all_geos, geo_text, kind_errors, under, uniq_events
 
 UL = 'gemdat.rdf._uniqify_labels'
 GS = 'gemdat.rdf._get_states'
@@ -274,8 +274,8 @@ def check_lengths(ctx):
 def check_distances(ctx):
     fs = ctx.fn(RDS)
     its = ctx.entry(RDS)
-    kind_errors(ctx, 'R4', its, lambda f: f.qualname == RDS, strict=True)
-    for e in uniq_events(its, {'pbc_distance'}, lambda f: f.qualname == RDS):
+    kind_errors(ctx, 'R4', its, under(RDS), strict=True)
+    for e in uniq_events(its, {'pbc_distance'}, under(RDS)):
         a, b = e['a'], e['b']
         ga, gb = all_geos(a), all_geos(b)
         ok = bool(ga) and bool(gb) and all(g[0] == 'FRAC' for g in ga | gb)
